@@ -10,6 +10,11 @@
 //! of the frame's own prepared statement; only scripted by the `wire` cases of c06.rs, which run this same code and
 //! are additionally compared with the frame-level model `Model/RetryFrames.lean`).
 //!
+//! `unpx`: UNPREPARED naming an id that belongs to no statement of the request. A script may be followed by
+//! `~<p.p.p>`: the answers to the PREPARE frames sent during that request (`PREP_ANSWERS`; default `p`); kinds `qvals`
+//! (an unprepared statement WITH values: PREPARE + EXECUTE in every attempt, session.rs:1424-1438) and `batchv` (a batch
+//! with an unprepared statement with values: `prepare_batch` sends a PREPARE in every attempt) exist for the `wire` cases.
+//!
 //! With `unp` the statement is sent again INSIDE one attempt (EXECUTE once more after the re-prepare, BATCH in a
 //! loop), so the oracle below is stated at frame level: an ATTEMPT starts at the first frame and after every frame
 //! whose predecessor was not answered `unp`.
@@ -33,7 +38,10 @@ use crate::{Ctx, Tier};
 use std::sync::{Arc, Mutex};
 use std::time::Duration;
 
-const OUTCOMES: &[&str] = &["ok", "un", "bs", "rt", "rtd", "ov", "se", "tr", "wt", "wtb", "inv", "cl", "unp"];
+const OUTCOMES: &[&str] = &["ok", "un", "bs", "rt", "rtd", "ov", "se", "tr", "wt", "wtb", "inv", "cl", "unp", "unpx"];
+/// answers to the PREPARE frames sent DURING a request (via=session only): ok, ok with ANOTHER id, Overloaded,
+/// IsBootstrapping, the node closes the connection
+const PREP_ANSWERS: &[&str] = &["p", "pc", "pov", "pbs", "pcl"];
 /// outcomes that prove the attempt was not applied
 const PROOF: &[&str] = &["un", "bs", "rt", "rtd"];
 
@@ -117,6 +125,50 @@ fn unprepared_for(r: &Req) -> Vec<Act> {
     vec![Act::Respond(crate::mocknode::RESP_ERROR, crate::mocknode::body_unprepared(&id))]
 }
 
+/// `std_prepared` with a chosen statement id.
+fn std_prepared_with_id(text: &str, id: &[u8]) -> Vec<u8> {
+    let marks = text.matches('?').count();
+    let mut bind: Vec<(&str, CqlT)> = Vec::new();
+    if marks >= 1 {
+        bind.push(("pk", CqlT::Native(T_BLOB)));
+    }
+    if marks >= 2 {
+        bind.push(("v", CqlT::Native(T_INT)));
+    }
+    let pk: &[u16] = if marks >= 1 { &[0] } else { &[] };
+    prepared_body(id, &Specs::new("ks", "t", &bind), pk, None)
+}
+
+/// Kind of the error the caller got (the model prints the same names).
+fn error_kind(e: &scylla::errors::ExecutionError) -> &'static str {
+    use scylla::errors::{DbError, ExecutionError, RequestAttemptError};
+    match e {
+        ExecutionError::LastAttemptError(a) => match a {
+            RequestAttemptError::DbError(db, _) => match db {
+                DbError::Unavailable { .. } => "un",
+                DbError::IsBootstrapping => "bs",
+                DbError::ReadTimeout { .. } => "rt",
+                DbError::Overloaded => "ov",
+                DbError::ServerError => "se",
+                DbError::TruncateError => "tr",
+                DbError::WriteTimeout { .. } => "wt",
+                DbError::Invalid => "inv",
+                DbError::Unprepared { .. } => "unp",
+                _ => "db-other",
+            },
+            RequestAttemptError::BrokenConnectionError(_) => "cl",
+            RequestAttemptError::RepreparedIdChanged { .. } => "idchg",
+            RequestAttemptError::RepreparedIdMissingInBatch => "idmiss",
+            RequestAttemptError::UnableToAllocStreamId => "alloc",
+            _ => "attempt-other",
+        },
+        ExecutionError::ConnectionPoolError(_) => "pool",
+        ExecutionError::EmptyPlan => "emptyplan",
+        ExecutionError::RequestTimeout(_) => "timeout",
+        _ => "other",
+    }
+}
+
 fn key_of(req: usize) -> Vec<u8> {
     vec![0xE0, req as u8, 0x5A]
 }
@@ -148,7 +200,7 @@ pub fn run(words: &[&str], ctx: &mut Ctx) -> String {
         return "bad-case".into();
     };
     let (pol, kind, cl) = (p.str("pol").unwrap_or("def"), p.str("kind").unwrap_or("exec"), p.str("cl").unwrap_or("q"));
-    if !(1..=8).contains(&n) || sh > 8 || !["def", "fall", "down"].contains(&pol) || !["exec", "query", "batch"].contains(&kind) || !["q", "serial", "localserial"].contains(&cl) {
+    if !(1..=8).contains(&n) || sh > 8 || !["def", "fall", "down"].contains(&pol) || !["exec", "query", "batch", "qvals", "batchv"].contains(&kind) || !["q", "serial", "localserial"].contains(&cl) {
         return "bad-case".into();
     }
     let via = p.str("via").unwrap_or("session");
@@ -156,8 +208,20 @@ pub fn run(words: &[&str], ctx: &mut Ctx) -> String {
         return "bad-case".into();
     }
     let Some(scripts_s) = p.str("scripts") else { return "bad-case".into() };
-    let scripts: Vec<Vec<String>> = scripts_s.split('/').map(|s| s.split('.').map(|o| o.to_owned()).collect()).collect();
-    if scripts.len() > 64 || scripts.iter().flatten().any(|o| !OUTCOMES.contains(&o.as_str())) {
+    let split2 = |s: &str| -> (String, String) {
+        match s.split_once('~') {
+            Some((a, b)) => (a.to_owned(), b.to_owned()),
+            None => (s.to_owned(), String::new()),
+        }
+    };
+    let scripts: Vec<Vec<String>> = scripts_s.split('/').map(|s| split2(s).0.split('.').map(|o| o.to_owned()).collect()).collect();
+    let prep_scripts: Vec<Vec<String>> =
+        scripts_s.split('/').map(|s| split2(s).1.split('.').filter(|o| !o.is_empty()).map(|o| o.to_owned()).collect()).collect();
+    if scripts.len() > 64
+        || scripts.iter().flatten().any(|o| !OUTCOMES.contains(&o.as_str()))
+        || prep_scripts.iter().flatten().any(|o| !PREP_ANSWERS.contains(&o.as_str()))
+        || (via != "session" && (prep_scripts.iter().any(|p| !p.is_empty()) || kind == "qvals" || kind == "batchv"))
+    {
         return "bad-case".into();
     }
     let n = n as usize;
@@ -167,13 +231,49 @@ pub fn run(words: &[&str], ctx: &mut Ctx) -> String {
     let served: Arc<Mutex<Vec<Vec<(String, usize)>>>> = Arc::new(Mutex::new(vec![Vec::new(); n_req]));
     let served_h = Arc::clone(&served);
     let scripts_h = scripts.clone();
-    let handler = with_std_prepare(move |r: &Req| {
+    // the request being executed (requests run one after another); PREPARE frames seen meanwhile belong to it
+    let current: Arc<Mutex<Option<usize>>> = Arc::new(Mutex::new(None));
+    let current_h = Arc::clone(&current);
+    let prep_served: Arc<Mutex<Vec<Vec<String>>>> = Arc::new(Mutex::new(vec![Vec::new(); n_req]));
+    let prep_served_h = Arc::clone(&prep_served);
+    let prep_scripts_h = prep_scripts.clone();
+    let scripted_prepares = via == "session";
+    let handler: ClusterHandler = Box::new(move |r: &Req| {
+        if let Parsed::Prepare { text } = &r.parsed {
+            let cur = *current_h.lock().unwrap();
+            let Some(q) = cur.filter(|_| scripted_prepares) else {
+                return vec![Act::Respond(crate::mocknode::RESP_RESULT, std_prepared(text))];
+            };
+            let mut ps = prep_served_h.lock().unwrap();
+            let k = ps[q].len();
+            let o = prep_scripts_h[q].get(k).cloned().unwrap_or_else(|| "p".to_owned());
+            ps[q].push(o.clone());
+            return match o.as_str() {
+                "pc" => {
+                    let mut id = stmt_id(text);
+                    if let Some(b) = id.last_mut() {
+                        *b ^= 0xFF;
+                    }
+                    vec![Act::Respond(crate::mocknode::RESP_RESULT, std_prepared_with_id(text, &id))]
+                }
+                "pov" => vec![act_error(0x1001, "overloaded", &[])],
+                "pbs" => vec![act_error(0x1002, "bootstrapping", &[])],
+                "pcl" => vec![Act::Close],
+                _ => vec![Act::Respond(crate::mocknode::RESP_RESULT, std_prepared(text))],
+            };
+        }
         let Some(q) = request_of(r, n_req) else { return vec![act_void()] };
         let mut sv = served_h.lock().unwrap();
         let k = sv[q].len();
         let o = scripts_h[q].get(k).cloned().unwrap_or_else(|| "ok".to_owned());
         sv[q].push((o.clone(), r.node));
-        if o == "unp" { unprepared_for(r) } else { outcome_acts(&o) }
+        if o == "unp" {
+            unprepared_for(r)
+        } else if o == "unpx" {
+            vec![Act::Respond(crate::mocknode::RESP_ERROR, crate::mocknode::body_unprepared(&[0xBA; 16]))]
+        } else {
+            outcome_acts(&o)
+        }
     });
     let rt = runtime(1);
     rt.block_on(async {
@@ -226,13 +326,29 @@ pub fn run(words: &[&str], ctx: &mut Ctx) -> String {
             _ => unreachable!(),
         };
         let mut results: Vec<bool> = Vec::new();
+        let mut kinds: Vec<String> = Vec::new();
         for q in 0..n_req {
-            let ok = match (kind, &caching) {
-                ("exec", None) => session.execute_unpaged(&ps, (key_of(q), 0i32)).await.is_ok(),
-                ("exec", Some(cs)) => cs.execute_unpaged(configured(INSERT.to_owned()), (key_of(q), 0i32)).await.is_ok(),
-                ("query", None) => session.query_unpaged(configured(text_of(q)), ()).await.is_ok(),
+            *current.lock().unwrap() = Some(q);
+            let res: Result<(), scylla::errors::ExecutionError> = match (kind, &caching) {
+                ("exec", None) => session.execute_unpaged(&ps, (key_of(q), 0i32)).await.map(|_| ()),
+                ("exec", Some(cs)) => cs.execute_unpaged(configured(INSERT.to_owned()), (key_of(q), 0i32)).await.map(|_| ()),
+                ("query", None) => session.query_unpaged(configured(text_of(q)), ()).await.map(|_| ()),
+                // an unprepared statement WITH values: prepared and executed inside every attempt
+                ("qvals", _) => session.query_unpaged(configured(INSERT.to_owned()), (key_of(q), 0i32)).await.map(|_| ()),
                 // prepared by the CachingSession, executed without values
-                ("query", Some(cs)) => cs.execute_unpaged(configured(text_of(q)), ()).await.is_ok(),
+                ("query", Some(cs)) => cs.execute_unpaged(configured(text_of(q)), ()).await.map(|_| ()),
+                ("batchv", _) => {
+                    let mut b = Batch::new(BatchType::Logged);
+                    b.append_statement(ps.clone());
+                    // unprepared WITH a value: prepare_batch prepares it on the connection in every attempt
+                    b.append_statement(Statement::new("INSERT INTO ks.t (pk, v) VALUES (?, 1)"));
+                    b.set_is_idempotent(idem != 0);
+                    b.set_retry_policy(Some(Arc::clone(&policy)));
+                    if let Some(c) = consistency {
+                        b.set_consistency(c);
+                    }
+                    session.batch(&b, ((key_of(q), 0i32), (vec![0u8],))).await.map(|_| ())
+                }
                 _ => {
                     let mut b = Batch::new(BatchType::Logged);
                     b.append_statement(ps.clone());
@@ -243,28 +359,34 @@ pub fn run(words: &[&str], ctx: &mut Ctx) -> String {
                         b.set_consistency(c);
                     }
                     match &caching {
-                        None => session.batch(&b, ((key_of(q), 0i32), ())).await.is_ok(),
+                        None => session.batch(&b, ((key_of(q), 0i32), ())).await.map(|_| ()),
                         // the unprepared statement sends the batch through prepare_batch
-                        Some(cs) => cs.batch(&b, ((key_of(q), 0i32), ())).await.is_ok(),
+                        Some(cs) => cs.batch(&b, ((key_of(q), 0i32), ())).await.map(|_| ()),
                     }
                 }
             };
-            results.push(ok);
+            *current.lock().unwrap() = None;
+            results.push(res.is_ok());
+            kinds.push(match &res {
+                Ok(()) => "ok".to_owned(),
+                Err(e) => format!("err:{}", error_kind(e)),
+            });
             // a closed connection is re-opened by the pool; start the next request from full pools again
             cluster.wait_pools_full(&session, Duration::from_secs(3)).await;
         }
         // ------------------------------------------------------------------ oracle
         let served = served.lock().unwrap().clone();
+        let prep_served = prep_served.lock().unwrap().clone();
         let mut summary = Vec::new();
         for q in 0..n_req {
             let sv: Vec<&str> = served[q].iter().map(|x| x.0.as_str()).collect();
             let what = format!("request {} ({}, {}, policy {}, cl {}, via {})", q, if idem != 0 { "idempotent" } else { "NOT idempotent" }, kind, pol, cl, via);
             // frames that START an attempt: the first one and every one whose predecessor was not answered UNPREPARED
-            let attempts = if sv.is_empty() { 0 } else { 1 + (1..sv.len()).filter(|k| sv[k - 1] != "unp").count() };
+            let attempts = if sv.is_empty() { 0 } else { 1 + (1..sv.len()).filter(|k| sv[k - 1] != "unp" && sv[k - 1] != "unpx").count() };
             if idem == 0 {
                 for k in 1..sv.len() {
                     // frame level: UNPREPARED also proves that the statement was not applied
-                    if !PROOF.contains(&sv[k - 1]) && sv[k - 1] != "unp" {
+                    if !PROOF.contains(&sv[k - 1]) && sv[k - 1] != "unp" && sv[k - 1] != "unpx" {
                         ctx.fail(format!(
                             "e2e retry: {} was sent again (frame {} at node {}) after `{}`, which does not prove that the previous attempt was not applied; served outcomes {:?}",
                             what,
@@ -277,6 +399,11 @@ pub fn run(words: &[&str], ctx: &mut Ctx) -> String {
                     }
                 }
             }
+            // a failed (re-)prepare ends an attempt without a statement frame of its own: the attempt count below is
+            // only exact when every PREPARE of the request was answered normally
+            let plain_prepares = prep_served[q].iter().all(|p| p == "p") && kind != "qvals" && kind != "batchv";
+            let attempts = if plain_prepares { attempts } else { attempts.min(1) };
+            let unp = |o: &str| o == "unp" || o == "unpx";
             if pol == "fall" && attempts > 1 {
                 ctx.fail(format!("e2e retry: {} was attempted {} times although the fall-through policy never retries; served {:?}", what, attempts, sv));
             }
@@ -289,10 +416,10 @@ pub fn run(words: &[&str], ctx: &mut Ctx) -> String {
             // QUERY is never re-sent inside an attempt, EXECUTE at most once (connection.rs:1102-1133)
             let plain_query = kind == "query" && via == "session";
             for k in 1..sv.len() {
-                if plain_query && sv[k - 1] == "unp" {
-                    ctx.fail(format!("e2e retry: {} (a QUERY) was sent again after UNPREPARED; served {:?}", what, sv));
+                if plain_query && unp(sv[k - 1]) {
+                    ctx.fail(format!("e2e retry: {} (a QUERY without values) was sent again after UNPREPARED; served {:?}", what, sv));
                 }
-                if kind != "batch" && !plain_query && k >= 2 && sv[k - 1] == "unp" && sv[k - 2] == "unp" {
+                if plain_prepares && kind != "batch" && !plain_query && k >= 2 && unp(sv[k - 1]) && unp(sv[k - 2]) {
                     ctx.fail(format!("e2e retry: {} was sent a third time inside one attempt (two UNPREPARED answers in a row); served {:?}", what, sv));
                 }
             }
@@ -303,7 +430,12 @@ pub fn run(words: &[&str], ctx: &mut Ctx) -> String {
                     ctx.fail(format!("e2e retry: {} got an error although its last attempt was answered with success; served {:?}", what, sv));
                 }
             }
-            summary.push(format!("{}:{}", sv.len(), if results[q] { "ok" } else { "err" }));
+            // statement frames, PREPARE frames sent during the request (via=session), result with the error kind
+            let preps = if scripted_prepares { prep_served[q].len().to_string() } else { "-".to_owned() };
+            if std::env::var("C06_DEBUG").is_ok() {
+                eprintln!("request {} served {:?}", q, served[q]);
+            }
+            summary.push(format!("{}/{}:{}", sv.len(), preps, kinds[q]));
         }
         format!("retry {}", summary.join(" "))
     })
